@@ -54,13 +54,13 @@ def encode(t):
         tt = np.asarray(t["tt"], dtype=np.float64)
         d = t["dir"]
         return (f"sweep2 {tt.shape[0]} {tt.shape[1]} {t['i']} {t['j']} {d[0]} {d[1]} {d[2]} {d[3]} {t['zsi']} {t['xsi']} "
-                f"{int(t['grad'])} {_f(t['dz'])} {_f(t['dx'])} {_f(t['zsa'])} {_f(t['xsa'])} {_f(t['vzero'])} "
+                f"{int(t['grad'])} {int(t.get('sgm', 0))} {_f(t['dz'])} {_f(t['dx'])} {_f(t['zsa'])} {_f(t['xsa'])} {_f(t['vzero'])} "
                 f"{_g(tt)} {_g(t['slow'])}")
     if op == "sweep3":
         tt = np.asarray(t["tt"], dtype=np.float64)
         d = t["dir"]
         return (f"sweep3 {tt.shape[0]} {tt.shape[1]} {tt.shape[2]} {t['i']} {t['j']} {t['k']} "
-                + " ".join(str(x) for x in d) + f" {int(t['grad'])} {_f(t['dz'])} {_f(t['dx'])} {_f(t['dy'])} "
+                + " ".join(str(x) for x in d) + f" {int(t['grad'])} {int(t.get('sgm', 0))} {_f(t['dz'])} {_f(t['dx'])} {_f(t['dy'])} "
                 f"{_g(tt)} {_g(t['slow'])}")
     if op == "shrink":
         return (f"shrink {len(t['pcur'])} {_g(t['pcur'])} {_g(t['delta'])} {_g(t['lower'])} {_g(t['upper'])}")
